@@ -220,6 +220,13 @@ class Parser:
                 self.expr()
             self.eat("]")
             return f"slice<{inner}>"
+        if self.opt("("):
+            parts = []
+            while not self.at(")"):
+                parts.append(self.type_())
+                self.opt(",")
+            self.eat(")")
+            return "()" if not parts else f"tuple<{','.join(parts)}>"
         name = self.ident()
         while self.opt("::"):
             name = self.ident()
@@ -308,12 +315,13 @@ class Parser:
                 self.i += 1
                 mut = self.opt("mut")
                 name = self.ident()
+                ann = None
                 if self.opt(":"):
-                    self.type_()
+                    ann = self.type_()
                 self.eat("=")
                 e = self.expr()
                 self.eat(";")
-                stmts.append(("let", name, mut, e))
+                stmts.append(("let", name, mut, e, ann))
                 continue
             if self.at("while"):
                 self.i += 1
@@ -530,7 +538,9 @@ class Parser:
 # ------------------------------------------------------------------ translation
 INT_TYPES = {"i128": "I128", "I256": "I256"}
 SMALL = {"u32", "u8", "i32", "usize", "u64"}
-NATTY = {"u32", "u8", "usize", "u64"}
+NATTY = {"u32", "u8", "usize", "u64", "u128"}
+BITS = {"u8": 8, "u32": 32, "u64": 64, "usize": 64, "u128": 128}
+OPAQUE = {"Env", "CheckpointType"}   # parameters of these types are keys / handles: dropped
 
 
 def as_nat(l, t):
@@ -574,7 +584,7 @@ class Gen:
             return "Int"
         if ty == "()":
             return "Unit"
-        if ty in getattr(self, "enums", {}):
+        if ty in getattr(self, "enums", {}) or ty in getattr(self, "structs", {}):
             return ty
         if ty.startswith("BytesN<"):
             return "Nat"     # an opaque identifier, only passed through
@@ -694,6 +704,12 @@ class Gen:
             if e[2] in ("i128", "I256") and (t in SMALL or t in ("int", "i128")):
                 return (l, e[2])
             raise Unsupported(f"cast of {t} as {e[2]}")
+        if e[0] == "field" and e[2] != "0":
+            l, t = self.pure(e[1], env)
+            flds = dict(getattr(self, "structs", {}).get(t, []))
+            if e[2] not in flds:
+                raise Unsupported(f"field {e[2]} of {t}")
+            return (f"{l}.{e[2]}", flds[e[2]])
         if e[0] == "field" and e[2] == "0":
             l, t = self.pure(e[1], env)
             if t != "Wad":
@@ -726,6 +742,8 @@ class Gen:
             return ("envr.ledger_sequence", self.reads["ledger_sequence"])
         if e[0] == "call" and e[1][0] == "var" and e[1][1] in getattr(self, "reads", {}) and (self.cur_ns, e[1][1]) not in self.sigs:
             # a state getter called with the environment and PARAMETERS of this function passed through
+            if isinstance(self.reads[e[1][1]], tuple):
+                raise Unsupported("indexed state getter (not pure: it may panic)")
             for a in e[2]:
                 a_ = self.strip(a)
                 if not (a_[0] == "var" and (a_[1] in ("e", "_e") or a_[1] in self.param_names)):
@@ -798,9 +816,15 @@ class Gen:
             al = [self.pure(a, env)[0] for a in args]
             return (f"({f} {rl} {' '.join(al)})", ret)
         if rt in NATTY and name in ("saturating_add", "saturating_sub") and len(args) == 1:
-            bits = {"u8": 8, "u32": 32, "u64": 64, "usize": 64}[rt]
+            bits = BITS[rt]
             al, at_ = self.pure(args[0], env)
             return (f"(uN_{name} {bits} {rl} {as_nat(al, at_)})", rt)
+        if rt in NATTY and name == "div_ceil" and len(args) == 1:
+            a_ = self.strip(args[0])
+            if not (a_[0] == "num" and int(str(a_[1]).replace("_", ""), 0) > 0):
+                raise Unsupported("div_ceil by a non-literal")
+            al, at_ = self.pure(args[0], env)
+            return (f"(uN_div_ceil {rl} {as_nat(al, at_)})", rt)
         if rt == "I256" and name == "to_i128" and not args:
             return (f"(i256_to_i128 {rl})", "Option<i128>")
         if rt.startswith("Option<") and name == "map" and len(args) == 1:
@@ -857,7 +881,9 @@ class Gen:
         if kind == "return":
             if e[1] is None:
                 raise Unsupported("return without value")
-            return self.tr(e[1], env, lambda a, t: f"Comp.ok {a}", ret)
+            return self.tr(e[1], env, lambda a, t: f"Comp.ok {as_nat(a, t) if ret in NATTY else a}", ret)
+        if kind == "field":
+            return self.tr(e[1], env, lambda a, t: k(*self.pure(("field", ("var", "$f"), e[2]), dict(env, **{"$f": (a, t)}))), ret)
         if kind == "try":
             def kk(a, t):
                 if not t.startswith("Option<") or not ret.startswith("Option<"):
@@ -872,7 +898,7 @@ class Gen:
                     if ty in ("int", "Wad"):
                         ty = "i128"
                     if ty in NATTY and e[1] in ("+", "-", "*"):
-                        bits = {"u8": 8, "u32": 32, "u64": 64, "usize": 64}[ty]
+                        bits = BITS[ty]
                         v = self.fresh()
                         opn = {"+": "add", "-": "sub", "*": "mul"}[e[1]]
                         return f"(Comp.bind (uN_{opn} {bits} {as_nat(a, at)} {as_nat(b, bt)}) fun {v} =>\n {k(v, ty)})"
@@ -939,6 +965,29 @@ class Gen:
             return self.tr(e[1], env, km, ret)
         if kind == "call":
             f = e[1]
+            if f[0] == "var" and isinstance(getattr(self, "reads", {}).get(f[1]), tuple) and (self.cur_ns, f[1]) not in self.sigs:
+                # an INDEXED state getter `name(e, key.., index)`: a function of the reads record that may panic;
+                # the environment and pass-through parameters of opaque (key) types are dropped
+                _, atys, rty_ = self.reads[f[1]]
+                comp_args = []
+                for a in e[2]:
+                    a_ = self.strip(a)
+                    if a_[0] == "var" and (a_[1] in ("e", "_e") or (a_[1] in self.param_names and a_[1] not in env)):
+                        continue
+                    comp_args.append(a)
+                if len(comp_args) != len(atys):
+                    raise Unsupported(f"indexed getter {f[1]}: expected {len(atys)} index arguments")
+                self.uses_reads = True
+                atoms = []
+                def goi(i):
+                    if i == len(comp_args):
+                        v = self.fresh()
+                        return f"(Comp.bind (envr.{f[1]} {' '.join(atoms)}) fun {v} =>\n {k(v, rty_)})"
+                    def ka(x, t):
+                        atoms.append(as_nat(x, t) if atys[i] in NATTY else x)
+                        return goi(i + 1)
+                    return self.tr(comp_args[i], env, ka, ret)
+                return goi(0)
             if f[0] == "var" and ("", f[1]) in self.sigs_local:
                 return self.call_fn(self.cur_ns, f[1], None, e[2], env, k, ret)
             if f[0] == "var":
@@ -1043,7 +1092,14 @@ class Gen:
                 return k_end(env)
             s = stmts[i]
             if s[0] == "let":
-                return self.tr(s[3], env, lambda a, t: go(i + 1, dict(env, **{s[1]: (a, t)})), ret)
+                ann = s[4] if len(s) > 4 else None
+                def klet(a, t):
+                    if t == "int" and ann in NATTY:
+                        a, t = as_nat(a, t), ann
+                    elif t == "int" and ann in INT_TYPES:
+                        t = ann
+                    return go(i + 1, dict(env, **{s[1]: (a, t)}))
+                return self.tr(s[3], env, klet, ret)
             if s[0] == "letelse":
                 eb = self.as_stmts(s[3])
                 def kle(a, t):
@@ -1109,8 +1165,7 @@ class Gen:
         body = self.as_stmts(s[2])
         if body[2] is not None:
             raise Unsupported("while body with a value")
-        if not ret.startswith("Option<"):
-            raise Unsupported("while loop in a function that does not return Option")
+        opt = ret.startswith("Option<")
         muts = sorted(self.assigned_vars(body[1], set()))
         for m in muts:
             if m not in env:
@@ -1123,16 +1178,20 @@ class Gen:
         plist = " ".join(f"({penv[v][0]} : {self.lean_ty(env[v][1])})" for v in params)
         rty = " × ".join(self.lean_ty(env[m][1]) for m in muts)
         tup = lambda en: "(" + ", ".join(en[m][0] for m in muts) + ")"
-        again = lambda en: f"{name} fuel {' '.join(en[v][0] for v in params)}"
-        code = self.branch(s[1], penv, lambda: self.tr_stmts(body[1], penv, again, ret), lambda: f"Comp.ok (some {tup(penv)})", ret)
-        self.aux.append(f"def {name} (fuel : Nat) {plist} : Comp (Option ({rty})) :=\n match fuel with\n | 0 => Comp.panic\n | fuel + 1 =>\n {code}\n")
+        rd = self.cur_ns in getattr(self, "reads_ns", set())
+        fu = "fuel envr" if rd else "fuel"
+        again = lambda en: f"{name} {fu} {' '.join(en[v][0] for v in params)}"
+        code = self.branch(s[1], penv, lambda: self.tr_stmts(body[1], penv, again, ret), lambda: (f"Comp.ok (some {tup(penv)})" if opt else f"Comp.ok {tup(penv)}"), ret)
+        self.aux.append(f"def {name} (fuel : Nat) {'(envr : ' + self.cur_ns + '.Reads) ' if rd else ''}{plist} : Comp ({'Option (' + rty + ')' if opt else rty}) :=\n match fuel with\n | 0 => Comp.panic\n | fuel + 1 =>\n {code}\n")
         self.uses_fuel = True
         r, st = self.fresh("r"), self.fresh("st")
         env2 = dict(env)
         for jx, m in enumerate(muts):
             proj = st if len(muts) == 1 else st + "".join(".2" for _ in range(jx)) + (".1" if jx < len(muts) - 1 else "")
             env2[m] = (proj, env[m][1])
-        return (f"(Comp.bind ({name} fuel {' '.join(env[v][0] for v in params)}) fun {r} =>\n"
+        if not opt:
+            return f"(Comp.bind ({name} {fu} {' '.join(env[v][0] for v in params)}) fun {st} =>\n {k_after(env2)})"
+        return (f"(Comp.bind ({name} {fu} {' '.join(env[v][0] for v in params)}) fun {r} =>\n"
                 f" (Comp.tryOpt {r} fun {st} =>\n {k_after(env2)}))")
 
     def tr_block(self, b, env, k, ret):
@@ -1161,7 +1220,7 @@ class Gen:
         env, lparams = {}, []
         self_ty = impl_of[0] if impl_of else None
         for pn, pt, mut in params:
-            if pt == "Env":
+            if pt in OPAQUE:
                 continue
             if pt == "Self":
                 pt = self_ty
@@ -1205,6 +1264,9 @@ READS_FEE = {"Fee": {"ledger_sequence": "u32"}}
 FILES_CAP = [
     ("Capped", "packages/tokens/src/fungible/extensions/capped/storage.rs", ["query_cap", "check_cap"]),
 ]
+READS_VOTES = {"Votes": {"get_checkpoint": ("fn", ["u32"], "Checkpoint")}}
+STRUCTS_VOTES = {"Checkpoint": [("ledger", "u32"), ("votes", "u128")]}
+FILES_VOTES = [("Votes", "packages/governance/src/votes/storage.rs", ["lookup_checkpoint_at"])]
 READS_CAP = {"Capped": {"get_Cap": "Option<i128>", "get_TotalSupply": "Option<i128>"}}
 
 FILES_WEBAUTHN = [
@@ -1236,7 +1298,7 @@ def deps(e, acc):
             deps(x, acc)
 
 
-def translate(repo, FILES=FILES, DEPS=(), imports=("OZ.Model.RustSem",), reads=None):
+def translate(repo, FILES=FILES, DEPS=(), imports=("OZ.Model.RustSem",), reads=None, structs=None):
     """DEPS: files translated elsewhere whose signatures are needed (parsed, not emitted);
     reads: {namespace: {getter name: Rust type}} — the side-effect-free state getters (`Self::name(e)`)
     that become fields of the record `<namespace>.Reads` passed to every function of that namespace"""
@@ -1269,7 +1331,7 @@ def translate(repo, FILES=FILES, DEPS=(), imports=("OZ.Model.RustSem",), reads=N
                 fns.append(it)
         for f in fns:
             self_ty = f[5][0] if f[5] else None
-            ptys = [(self_ty if t == "Self" else t) for (_, t, _) in f[2] if t != "Env"]
+            ptys = [(self_ty if t == "Self" else t) for (_, t, _) in f[2] if t not in OPAQUE]
             r = re.sub(r"\bSelf\b", self_ty, f[3]) if self_ty else f[3]
             sigs[(ns, f[1])] = (ptys, r)
         parsed.append((ns, rel, fns))
@@ -1302,8 +1364,14 @@ def translate(repo, FILES=FILES, DEPS=(), imports=("OZ.Model.RustSem",), reads=N
             reads_done.add(ns)
             g0 = Gen(sigs, consts)
             g0.enums = enums
+            g0.structs = structs or {}
+            for sn, flds in (structs or {}).items():
+                out.append(f"structure {sn} where\n" + "\n".join(f"  {fn_} : {g0.lean_ty(ft)}" for fn_, ft in flds) + "\n  deriving DecidableEq, Repr\n")
             out.append(f"/-- the state getters the translated functions read (`Self::name(e)`), as values -/\nstructure {ns}.Reads where")
             for rn, rt in reads[ns].items():
+                if isinstance(rt, tuple):
+                    out.append(f"  {rn} : {' → '.join(g0.lean_ty(t_) for t_ in rt[1])} → Comp {g0.lean_ty(rt[2])}")
+                    continue
                 out.append(f"  {rn} : {g0.lean_ty(rt)}")
             out.append("")
         names = [f[1] for f in fns]
@@ -1330,6 +1398,7 @@ def translate(repo, FILES=FILES, DEPS=(), imports=("OZ.Model.RustSem",), reads=N
         g.reads = reads.get(ns, {})
         g.reads_ns = set(reads)
         g.enums = enums
+        g.structs = structs or {}
         for f in order:
             out.append(g.function(ns, f, free))
     out.append("end OZ.Gen")
@@ -1617,7 +1686,9 @@ def main():
                 sys.stdout.write(txt)
         sys.exit(rc)
     try:
-        if "--cap" in sys.argv:
+        if "--votes" in sys.argv:
+            txt = translate(repo, FILES_VOTES, reads=READS_VOTES, structs=STRUCTS_VOTES)
+        elif "--cap" in sys.argv:
             txt = translate(repo, FILES_CAP, reads=READS_CAP)
         elif "--fee" in sys.argv:
             txt = translate(repo, FILES_FEE, reads=READS_FEE)
